@@ -24,6 +24,7 @@ import vlib  # noqa: E402
 
 REPO = vlib.REPO
 OUT = os.path.join(vlib.THEORIES, "Gen", "Generated.v")
+SKEL_OUT = os.path.join(vlib.THEORIES, "Gen", "LockSkeletons.v")
 
 
 # ---------------------------------------------------------------------------
@@ -721,137 +722,486 @@ class Tr:
 # ---------------------------------------------------------------------------
 # lock skeletons
 # ---------------------------------------------------------------------------
+# For every non-static function of trie-pfx.c / ht-spkitable.c the translator emits a small
+# structured program (lk_prog) over the events
+#     AcqR l | AcqW l | Rel l     pthread_rwlock_rdlock / wrlock / unlock on table l's lock
+#     Rd l what | Wr l what       an access to the mutable state of table l ("what" is only a label)
+#     Cb what                     a call through a user-supplied function pointer
+# where l is the *name of the table parameter* of the outermost function (two-table functions such
+# as pfx_table_swap(a, b) therefore show which table is locked / touched).  Calls to functions
+# defined in the same file are inlined (PCall) with the table parameters substituted; callbacks that
+# are static functions of the same file are inlined where they are invoked, their `void *data`
+# argument being resolved through the initialiser of the argument struct in the caller.
+#
+# What is an access (derived from clang's AST, not from names):
+#   * a read  = an LValueToRValue conversion of an lvalue that designates table memory;
+#   * a write = an assignment / ++ / -- whose left side designates table memory;
+#   * "designates table memory" = tbl->f for f in SHARED_FIELDS, or *p / p->g / p[i] for a pointer p
+#     whose value was loaded from table memory or returned by a classified helper called on it
+#     (a forward "points into table l" analysis over the locals, iterated to a fixpoint);
+#   * a call to a function of HELPER_RW counts as one read / write of the table its arguments point into;
+#   * any other function that is handed such a pointer counts as a read (free: a write; memcpy: dest write,
+#     source read).
+# TRUSTED: the R/W classification below (functions whose bodies are not analysed), SHARED_FIELDS, and that
+# update_fp / lock are not table state (update_fp is set at init and never changed on a shared table).
 LOCK_CALLS = {"pthread_rwlock_rdlock": "AcqR", "pthread_rwlock_wrlock": "AcqW", "pthread_rwlock_unlock": "Rel"}
-# helpers that read / write the shared structure (trusted classification, see DESIGN section 7)
+LIFECYCLE_CALLS = {"pthread_rwlock_init", "pthread_rwlock_destroy"}
+# name -> "R" | "W" | "N" (touches no table state) | (mode, index of callback argument, index of its data argument)
 HELPER_RW = {
-    "trie_lookup": "R", "trie_lookup_exact": "R", "trie_insert": "W", "trie_remove": "W", "trie_get_children": "R",
-    "trie_is_leaf": "R", "pfx_table_get_root": "R", "pfx_table_find_elem": "R", "pfx_table_append_elem": "W",
-    "pfx_table_del_elem": "W", "pfx_table_create_node": "N", "pfx_table_elem_matches": "R",
-    "pfx_table_node2pfx_record": "R", "pfx_table_remove_id": "W", "pfx_table_for_each_rec": "R",
-    "tommy_hashlin_search": "R", "tommy_hashlin_insert": "W", "tommy_hashlin_remove": "W",
-    "tommy_hashlin_remove_existing": "W", "tommy_hashlin_bucket": "R", "tommy_hashlin_count": "R",
-    "tommy_hashlin_init": "W", "tommy_hashlin_done": "W", "tommy_hashlin_foreach": "R",
-    "tommy_list_insert_tail": "W", "tommy_list_remove_existing": "W", "tommy_list_head": "R",
-    "tommy_list_foreach": "R", "tommy_list_init": "W", "tommy_list_empty": "R", "tommy_list_count": "R",
-    "tommy_list_tail": "R", "tommy_list_insert_head": "W",
+    # trie.c
+    "trie_lookup": "R", "trie_lookup_exact": "R", "trie_get_children": "R", "trie_is_leaf": "R",
+    "trie_insert": "W", "trie_remove": "W",
+    # static helpers of trie-pfx.c that work on nodes handed to them
+    "pfx_table_find_elem": "R", "pfx_table_elem_matches": "R", "pfx_table_node2pfx_record": "R",
+    "pfx_table_append_elem": "W", "pfx_table_del_elem": "W", "pfx_table_remove_id": "W",
+    "pfx_table_create_node": "N",
+    "pfx_table_for_each_rec": ("R", 1, 2),
+    # tommyds
+    "tommy_hashlin_search": "R", "tommy_hashlin_bucket": "R", "tommy_hashlin_count": "R",
+    "tommy_hashlin_insert": "W", "tommy_hashlin_remove": "W", "tommy_hashlin_remove_existing": "W",
+    "tommy_hashlin_init": "W", "tommy_hashlin_done": "W", "tommy_hashlin_foreach": ("R", 1, None),
+    "tommy_list_head": "R", "tommy_list_tail": "R", "tommy_list_empty": "R", "tommy_list_count": "R",
+    "tommy_list_insert_tail": "W", "tommy_list_insert_head": "W", "tommy_list_remove_existing": "W",
+    "tommy_list_init": "W", "tommy_list_foreach": ("R", 1, None),
 }
+FREE_CALLS = {"lrtr_free", "free"}
+ABORT_CALLS = {"__assert_fail", "abort"}
+COPY_CALLS = {"memcpy", "memmove"}
 SHARED_FIELDS = {"ipv4", "ipv6", "hashtable", "list", "cmp_fp"}
+TABLE_TYPE = re.compile(r"^(?:const\s+)?struct (?:pfx_table|spki_table) \*")
+MAX_INLINE_DEPTH = 6
 
 
-def lock_name(arg):
-    """&(tbl->lock) / &tbl->lock -> 'tbl'"""
-    s = json.dumps(arg)
-    names = re.findall(r'"referencedDecl": \{[^}]*?"name": "(\w+)"', s)
-    return names[0] if names else "?"
+def lock_name(val):
+    """the table whose lock is meant by &(tbl->lock): the unique table the argument points into"""
+    return sorted(val)[0] if len(val) == 1 else "?"
 
 
-def skeleton_paths(fn, maxpaths=64):
-    """Enumerate structured control-flow paths (loops 0 and 1 times) as event lists."""
-    def walk_expr(n, acc, write_target=None):
-        k = n.get("kind")
-        if k == "CallExpr":
-            f = inner(n)[0]
-            while f.get("kind") in ("ImplicitCastExpr", "ParenExpr"):
-                f = inner(f)[0]
-            name = f.get("referencedDecl", {}).get("name") if f.get("kind") == "DeclRefExpr" else None
-            for a in inner(n)[1:]:
-                if name in LOCK_CALLS:
-                    continue
-                walk_expr(a, acc)
-            if name in LOCK_CALLS:
-                acc.append((LOCK_CALLS[name], lock_name(inner(n)[1])))
-            elif name in HELPER_RW and HELPER_RW[name] in ("R", "W"):
-                base = lock_name(inner(n)[1]) if len(inner(n)) > 1 else "?"
-                acc.append(("Rd" if HELPER_RW[name] == "R" else "Wr", name))
-            elif name and (name.endswith("notify_clients") or name == "fp" or name.endswith("update_fp")):
-                acc.append(("Cb", name))
-            elif name is None:
-                acc.append(("Cb", "indirect"))
-            return
-        if k == "MemberExpr" and n.get("name") in SHARED_FIELDS:
-            acc.append(("Rd", "." + n["name"]))
-        if k in ("BinaryOperator", "CompoundAssignOperator") and n.get("opcode", "").endswith("=") and n["opcode"] not in ("==", "!=", "<=", ">="):
-            lhs, rhs = inner(n)
-            walk_expr(rhs, acc)
-            l2 = lhs
-            while l2.get("kind") in ("ParenExpr", "UnaryOperator") and inner(l2):
-                # *root = ... through a pointer into the table counts as a write of what it points to
-                l2 = inner(l2)[0]
-            if l2.get("kind") == "MemberExpr" and l2.get("name") in SHARED_FIELDS:
-                acc.append(("Wr", "." + l2["name"]))
+class SkelError(Exception):
+    pass
+
+
+# programs are tuples: ("ev", kind, l, what) ("skip",) ("ret",) ("brk",) ("seq", a, b) ("alt", a, b) ("loop", p) ("call", p)
+def has_effect(p):
+    k = p[0]
+    if k in ("ev", "ret"):
+        return True
+    if k in ("skip", "brk"):
+        return False
+    return any(has_effect(c) for c in p[1:])
+
+
+def has_ctl(p):
+    """contains a return or a break"""
+    k = p[0]
+    if k in ("ret", "brk"):
+        return True
+    if k in ("ev", "skip"):
+        return False
+    return any(has_ctl(c) for c in p[1:])
+
+
+def mk_seq(ps):
+    ps = [p for p in ps if p != ("skip",)]
+    if not ps:
+        return ("skip",)
+    out = ps[-1]
+    for p in reversed(ps[:-1]):
+        out = ("seq", p, out)
+    return out
+
+
+def mk_alt(a, b):
+    if a == b:
+        return a
+    return ("alt", a, b)
+
+
+def mk_loop(body):
+    if not has_effect(body):
+        return ("skip",)
+    return ("loop", body)
+
+
+def has_event(p):
+    if p[0] == "ev":
+        return True
+    if p[0] in ("skip", "ret", "brk"):
+        return False
+    return any(has_event(c) for c in p[1:])
+
+
+def mk_call(body):
+    if not has_event(body):
+        return ("skip",)          # a return inside the callee only ends the callee
+    return ("call", body)
+
+
+class Skel:
+    """Lock-skeleton extraction for one C file."""
+
+    def __init__(self, cfile):
+        self.cfile = cfile
+        self.defs = {}
+        self.records = {}
+        self.lifecycle = set()
+
+    def fdef(self, name):
+        if name not in self.defs:
+            self.defs[name] = find_def(self.cfile, name)
+        return self.defs[name]
+
+    def record_fields(self, tyname):
+        """field names of `struct tyname` in declaration order"""
+        if tyname not in self.records:
+            fields = None
+            for d in ast_docs(self.cfile, tyname):
+                if d.get("kind") == "RecordDecl" and d.get("name") == tyname:
+                    fs = [c["name"] for c in inner(d) if c.get("kind") == "FieldDecl"]
+                    if fs:
+                        fields = fs
+            self.records[tyname] = fields
+        return self.records[tyname]
+
+    # -- abstract values: (tabs: frozenset of table names, struct: dict field -> value or None, fn: function name or None)
+    @staticmethod
+    def val(tabs=(), struct=None, fn=None):
+        return (frozenset(tabs), struct, fn)
+
+    NOVAL = (frozenset(), None, None)
+
+    @staticmethod
+    def ptrish(n):
+        """does the expression have pointer / array / function-pointer type (so that it can point into a table)"""
+        ty = n.get("type", {})
+        q = ty.get("desugaredQualType", ty.get("qualType", ""))
+        return "*" in q or "[" in q
+
+    def loaded(self, n, tabs):
+        """value obtained by reading lvalue n that designates memory of `tabs`"""
+        return self.val(tabs) if (tabs and self.ptrish(n)) else self.NOVAL
+
+    def function(self, name, args=None, depth=0, top=None):
+        """program of function `name`; args = abstract values of the actual arguments (None at top level)"""
+        fn = self.fdef(name)
+        if fn is None:
+            raise SkelError("no definition of %s" % name)
+        if depth > MAX_INLINE_DEPTH:
+            raise SkelError("inlining too deep at %s" % name)
+        params = [c for c in inner(fn) if c.get("kind") == "ParmVarDecl"]
+        body = [c for c in inner(fn) if c.get("kind") == "CompoundStmt"][0]
+        env = {}
+        for i, p in enumerate(params):
+            ty = p.get("type", {}).get("qualType", "")
+            if args is None:
+                env[p["id"]] = self.val([p["name"]]) if TABLE_TYPE.match(ty) else self.NOVAL
             else:
-                walk_expr(lhs, acc)
-            return
+                env[p["id"]] = args[i] if i < len(args) else self.NOVAL
+        ctx = {"env": env, "depth": depth, "top": top or name, "ret": self.NOVAL}
+        self.stmt(body, ctx)          # first passes: only to propagate "points into table" to a fixpoint
+        self.stmt(body, ctx)
+        return self.stmt(body, ctx), ctx["ret"]
+
+    # -- expressions: returns (list of programs in evaluation order, abstract value)
+    def designates(self, n, ctx):
+        """for an lvalue expression: (events of evaluating the address, set of tables whose memory it designates, value kept there)"""
+        k = n.get("kind")
+        if k == "ParenExpr":
+            return self.designates(inner(n)[0], ctx)
+        if k == "DeclRefExpr":
+            v = ctx["env"].get(n.get("referencedDecl", {}).get("id"), self.NOVAL)
+            return [], frozenset(), v
+        if k == "MemberExpr":
+            base = inner(n)[0]
+            if n.get("isArrow"):
+                ev, bv = self.expr(base, ctx)
+                bty = base.get("type", {}).get("qualType", "")
+                if bv[1] is not None:             # pointer to a callback-argument struct of the caller
+                    return ev, frozenset(), bv[1].get(n.get("name"), self.NOVAL)
+                if TABLE_TYPE.match(bty):
+                    if n.get("name") in SHARED_FIELDS:
+                        return ev, bv[0], self.val(bv[0])   # roots / hashtable / list: always "into the table"
+                    return ev, frozenset(), self.NOVAL
+                return ev, bv[0], self.loaded(n, bv[0])
+            ev, tabs, v = self.designates(base, ctx)
+            if v[1] is not None:
+                return ev, tabs, v[1].get(n.get("name"), self.NOVAL)
+            return ev, tabs, self.loaded(n, tabs)
+        if k == "UnaryOperator" and n.get("opcode") == "*":
+            ev, bv = self.expr(inner(n)[0], ctx)
+            return ev, bv[0], self.loaded(n, bv[0])
+        if k == "ArraySubscriptExpr":
+            ev1, bv = self.expr(inner(n)[0], ctx)
+            ev2, _ = self.expr(inner(n)[1], ctx)
+            return ev1 + ev2, bv[0], self.loaded(n, bv[0])
+        ev, v = self.expr(n, ctx)
+        return ev, frozenset(), v
+
+    def label(self, n):
+        k = n.get("kind")
+        if k == "ParenExpr":
+            return self.label(inner(n)[0])
+        if k == "MemberExpr":
+            b = inner(n)[0]
+            while b.get("kind") in ("ImplicitCastExpr", "ParenExpr"):
+                b = inner(b)[0]
+            if n.get("isArrow") and TABLE_TYPE.match(inner(n)[0].get("type", {}).get("qualType", "")):
+                return "." + n.get("name", "?")
+            return self.label(b) + ("->" if n.get("isArrow") else ".") + n.get("name", "?")
+        if k == "DeclRefExpr":
+            return n.get("referencedDecl", {}).get("name", "?")
+        if k == "UnaryOperator":
+            return n.get("opcode", "") + self.label(inner(n)[0])
+        if k == "ArraySubscriptExpr":
+            return self.label(inner(n)[0]) + "[]"
+        if k in ("ImplicitCastExpr", "CStyleCastExpr"):
+            return self.label(inner(n)[-1])
+        return "?"
+
+    def callee_name(self, f):
+        while f.get("kind") in ("ImplicitCastExpr", "ParenExpr", "CStyleCastExpr"):
+            f = inner(f)[-1]
+        if f.get("kind") == "DeclRefExpr":
+            return f.get("referencedDecl", {}).get("kind"), f.get("referencedDecl", {}).get("name"), f
+        return None, None, f
+
+    def expr(self, n, ctx):
+        k = n.get("kind")
+        if not k:
+            return [], self.NOVAL
+        if k in ("ParenExpr", "CStyleCastExpr"):
+            return self.expr(inner(n)[-1], ctx)
+        if k == "ImplicitCastExpr":
+            sub = inner(n)[0]
+            if n.get("castKind") == "LValueToRValue":
+                ev, tabs, v = self.designates(sub, ctx)
+                return ev + [("ev", "Rd", t, self.label(sub)) for t in sorted(tabs)], v
+            if n.get("castKind") == "ArrayToPointerDecay":
+                ev, tabs, v = self.designates(sub, ctx)
+                return ev, self.val(tabs | v[0])
+            return self.expr(sub, ctx)
+        if k == "DeclRefExpr":
+            rd = n.get("referencedDecl", {})
+            if rd.get("kind") == "FunctionDecl":
+                return [], self.val(fn=rd.get("name"))
+            return [], ctx["env"].get(rd.get("id"), self.NOVAL)
+        if k == "UnaryOperator":
+            op = n.get("opcode")
+            sub = inner(n)[0]
+            if op == "&":
+                ev, tabs, v = self.designates(sub, ctx)
+                if v[1] is not None or v[2] is not None:
+                    return ev, v                      # &args : pointer to a callback-argument struct
+                return ev, self.val(tabs | (v[0] if sub.get("kind") != "DeclRefExpr" else frozenset()))
+            if op in ("++", "--"):
+                ev, tabs, v = self.designates(sub, ctx)
+                return ev + [("ev", "Wr", t, self.label(sub)) for t in sorted(tabs)], v
+            if op == "*":
+                # an lvalue used without conversion (e.g. as a struct operand): address only
+                ev, tabs, v = self.designates(n, ctx)
+                return ev, v
+            return self.expr(sub, ctx)
+        if k in ("BinaryOperator", "CompoundAssignOperator"):
+            op = n.get("opcode", "")
+            lhs, rhs = inner(n)
+            if op == "=" or k == "CompoundAssignOperator":
+                ev_r, rv = self.expr(rhs, ctx)
+                ev_l, tabs, lv = self.designates(lhs, ctx)
+                evs = ev_r + ev_l + [("ev", "Wr", t, self.label(lhs)) for t in sorted(tabs)]
+                l0 = lhs
+                while l0.get("kind") == "ParenExpr":
+                    l0 = inner(l0)[0]
+                if l0.get("kind") == "DeclRefExpr":
+                    self.bind(ctx, l0.get("referencedDecl", {}).get("id"), rv)
+                return evs, rv
+            if op in ("&&", "||"):
+                ev_l, _ = self.expr(lhs, ctx)
+                ev_r, _ = self.expr(rhs, ctx)
+                r = mk_seq(ev_r)
+                return ev_l + ([mk_alt(r, ("skip",))] if has_effect(r) else []), self.NOVAL
+            if op == ",":
+                ev_l, _ = self.expr(lhs, ctx)
+                ev_r, v = self.expr(rhs, ctx)
+                return ev_l + ev_r, v
+            ev_l, lv = self.expr(lhs, ctx)
+            ev_r, rv = self.expr(rhs, ctx)
+            if op in ("+", "-"):
+                return ev_l + ev_r, self.val(lv[0] | rv[0])
+            return ev_l + ev_r, self.NOVAL
+        if k == "ConditionalOperator":
+            c, a, b = inner(n)
+            ev_c, _ = self.expr(c, ctx)
+            ev_a, va = self.expr(a, ctx)
+            ev_b, vb = self.expr(b, ctx)
+            pa, pb = mk_seq(ev_a), mk_seq(ev_b)
+            alt = [mk_alt(pa, pb)] if (has_effect(pa) or has_effect(pb)) else []
+            return ev_c + alt, self.val(va[0] | vb[0], va[1] or vb[1], va[2] or vb[2])
+        if k == "CallExpr":
+            return self.call(n, ctx)
+        if k == "InitListExpr":
+            evs, tabs = [], frozenset()
+            for c in inner(n):
+                e, v = self.expr(c, ctx)
+                evs += e
+                tabs |= v[0]
+            return evs, self.val(tabs)
+        if k in ("MemberExpr", "ArraySubscriptExpr"):
+            # lvalue in a non-converting context (operand of sizeof is not visited; struct passed by address)
+            ev, tabs, v = self.designates(n, ctx)
+            return ev, v
+        if k in ("UnaryExprOrTypeTraitExpr", "IntegerLiteral", "StringLiteral", "CharacterLiteral", "FloatingLiteral",
+                 "ImplicitValueInitExpr", "CompoundLiteralExpr", "PredefinedExpr"):
+            return [], self.NOVAL
+        if k == "StmtExpr":
+            return [self.stmt(inner(n)[0], ctx)], self.NOVAL
+        evs = []
         for c in inner(n):
-            walk_expr(c, acc)
+            e, _ = self.expr(c, ctx)
+            evs += e
+        return evs, self.NOVAL
 
-    def seqs(stmts):
-        """returns list of (events, terminated: bool)"""
-        paths = [([], False)]
-        for s in stmts:
-            new = []
-            for ev, term in paths:
-                if term:
-                    new.append((ev, True))
-                    continue
-                for ev2, term2 in one(s):
-                    new.append((ev + ev2, term2))
-            paths = new[:maxpaths * 8]
-        return paths
+    def bind(self, ctx, name, v):
+        """sticky 'points into table' information for a local (keyed by clang's declaration id)"""
+        if name is None:
+            return
+        old = ctx["env"].get(name, self.NOVAL)
+        ctx["env"][name] = (old[0] | v[0], v[1] if v[1] is not None else old[1], v[2] or old[2])
 
-    def one(s):
+    def invoke(self, fnval, argvals, ctx, what):
+        """a call through a function pointer whose target may be known"""
+        name = fnval[2]
+        if name in FREE_CALLS:
+            tabs = frozenset().union(*[a[0] for a in argvals]) if argvals else frozenset()
+            return [("ev", "Wr", t, name) for t in sorted(tabs)]
+        if name and self.fdef(name) is not None and name not in HELPER_RW:
+            return [mk_call(self.function(name, argvals, ctx["depth"] + 1, ctx["top"])[0])]
+        return [("ev", "Cb", "", what)]
+
+    def call(self, n, ctx):
+        ins = inner(n)
+        dk, name, fnode = self.callee_name(ins[0])
+        args = ins[1:]
+        if dk == "FunctionDecl" and name in LOCK_CALLS:
+            # &(tbl->lock) / &tbl->lock : the table is what the base expression of ->lock points to
+            a = args[0]
+            while a.get("kind") in ("ParenExpr", "ImplicitCastExpr", "CStyleCastExpr") or (a.get("kind") == "UnaryOperator" and a.get("opcode") == "&"):
+                a = inner(a)[-1]
+            if a.get("kind") == "MemberExpr" and a.get("name") == "lock":
+                ev, v = self.expr(inner(a)[0], ctx)
+            else:
+                ev, v = self.expr(args[0], ctx)
+            return ev + [("ev", LOCK_CALLS[name], lock_name(v[0]), "")], self.NOVAL
+        if dk == "FunctionDecl" and name in LIFECYCLE_CALLS:
+            self.lifecycle.add(ctx["top"])
+            return [], self.NOVAL
+        evs, vals = [], []
+        for a in args:
+            e, v = self.expr(a, ctx)
+            evs += e
+            vals.append(v)
+        tabs = frozenset().union(*[v[0] for v in vals]) if vals else frozenset()
+        if dk == "FunctionDecl" and name in HELPER_RW:
+            spec = HELPER_RW[name]
+            mode, cbi, dti = (spec, None, None) if isinstance(spec, str) else spec
+            if mode == "N":
+                return evs, self.NOVAL
+            if len(tabs) != 1:
+                raise SkelError("helper %s called on %d tables in %s" % (name, len(tabs), ctx["top"]))
+            t = sorted(tabs)[0]
+            evs.append(("ev", "Rd" if mode == "R" else "Wr", t, name))
+            if cbi is not None and cbi < len(vals):
+                cbargs = [self.NOVAL, vals[dti] if dti is not None and dti < len(vals) else self.NOVAL]
+                if vals[cbi][2] in FREE_CALLS:
+                    cbargs = [self.val([t])]
+                body = mk_seq(self.invoke(vals[cbi], cbargs, ctx, self.label(args[cbi])))
+                evs.append(mk_loop(mk_alt(("brk",), body)))
+            return evs, self.val([t])
+        if dk == "FunctionDecl" and name in ABORT_CALLS:
+            return [], self.NOVAL                 # failing assert: the process ends, nothing follows
+        if dk == "FunctionDecl" and self.fdef(name) is not None:
+            p, rv = self.function(name, vals, ctx["depth"] + 1, ctx["top"])
+            return evs + [mk_call(p)], rv
+        if dk == "FunctionDecl":
+            # a function whose body is not analysed and that is not classified
+            if name in FREE_CALLS:
+                return evs + [("ev", "Wr", t, name) for t in sorted(tabs)], self.NOVAL
+            if name in COPY_CALLS and len(vals) >= 2:
+                return (evs + [("ev", "Wr", t, name) for t in sorted(vals[0][0])] +
+                        [("ev", "Rd", t, name) for t in sorted(vals[1][0])]), self.NOVAL
+            return evs + [("ev", "Rd", t, name) for t in sorted(tabs)], self.NOVAL
+        # indirect call: through a parameter / local / struct member holding a function pointer
+        e, fv = self.expr(ins[0], ctx)
+        return evs + e + self.invoke(fv, vals, ctx, self.label(fnode)), self.NOVAL
+
+    # -- statements
+    def stmt(self, s, ctx):
         k = s.get("kind")
+        if not k or k == "NullStmt":
+            return ("skip",)
         if k == "CompoundStmt":
-            return seqs(inner(s))
+            return mk_seq([self.stmt(c, ctx) for c in inner(s)])
         if k == "ReturnStmt":
-            acc = []
+            evs = []
             for c in inner(s):
-                walk_expr(c, acc)
-            return [(acc, True)]
+                e, v = self.expr(c, ctx)
+                evs += e
+                old = ctx["ret"]
+                ctx["ret"] = (old[0] | v[0], old[1] or v[1], old[2] or v[2])
+            return mk_seq(evs + [("ret",)])
         if k == "IfStmt":
             ins = inner(s)
-            acc = []
-            walk_expr(ins[0], acc)
-            res = [(acc + e, t) for e, t in one(ins[1])]
-            if len(ins) > 2:
-                res += [(acc + e, t) for e, t in one(ins[2])]
-            else:
-                res.append((acc, False))
-            return res
-        if k in ("ForStmt", "WhileStmt", "DoStmt"):
-            ins = inner(s)
-            body = ins[-1] if k != "DoStmt" else ins[0]
-            hdr = []
-            for c in (ins[:-1] if k != "DoStmt" else ins[1:]):
-                if c:
-                    walk_expr(c, hdr)
-            res = [] if k == "DoStmt" else [(hdr, False)]
-            for e, t in one(body):
-                res.append((hdr + e + ([] if t else hdr), t))
-                if not t:
-                    for e2, t2 in one(body):
-                        res.append((hdr + e + hdr + e2 + ([] if t2 else hdr), t2))
-            return res
-        if k in ("BreakStmt", "ContinueStmt", "NullStmt"):
-            return [([], False)]
+            ev, _ = self.expr(ins[0], ctx)
+            a = self.stmt(ins[1], ctx)
+            b = self.stmt(ins[2], ctx) if len(ins) > 2 else ("skip",)
+            if not (has_effect(a) or has_effect(b) or has_ctl(a) or has_ctl(b)):
+                return mk_seq(ev)
+            return mk_seq(ev + [mk_alt(a, b)])
+        if k == "WhileStmt":
+            c, body = inner(s)[-2:]
+            ev, _ = self.expr(c, ctx)
+            return mk_loop(mk_seq(ev + [mk_alt(("brk",), self.stmt(body, ctx))]))
+        if k == "DoStmt":
+            body, c = inner(s)[:2]
+            b = self.stmt(body, ctx)
+            ev, _ = self.expr(c, ctx)
+            return mk_loop(mk_seq([b] + ev + [mk_alt(("brk",), ("skip",))]))
+        if k == "ForStmt":
+            init, _cv, c, inc, body = (s.get("inner", []) + [{}] * 5)[:5]
+            pi = self.stmt(init, ctx) if init.get("kind") else ("skip",)
+            ev_c, _ = self.expr(c, ctx) if c.get("kind") else ([], None)
+            b = self.stmt(body, ctx)
+            ev_i, _ = self.expr(inc, ctx) if inc.get("kind") else ([], None)
+            return mk_seq([pi, mk_loop(mk_seq(ev_c + [mk_alt(("brk",), mk_seq([b] + ev_i))]))])
+        if k == "BreakStmt":
+            return ("brk",)
         if k == "DeclStmt":
-            acc = []
+            evs = []
             for d in inner(s):
+                if d.get("kind") != "VarDecl":
+                    continue
                 for c in inner(d):
-                    walk_expr(c, acc)
-            return [(acc, False)]
-        if k == "SwitchStmt":
-            return [([], False)]
-        acc = []
-        walk_expr(s, acc)
-        return [(acc, False)]
-
-    body = [c for c in inner(fn) if c.get("kind") == "CompoundStmt"][0]
-    out = []
-    for ev, _ in seqs(inner(body)):
-        if ev not in out:
-            out.append(ev)
-    return out[:maxpaths]
+                    if c.get("kind") == "InitListExpr":
+                        e, v = self.expr(c, ctx)
+                        evs += e
+                        m = re.match(r"^struct (\w+)$", d.get("type", {}).get("qualType", ""))
+                        fields = self.record_fields(m.group(1)) if m else None
+                        if fields:
+                            st = {}
+                            for f, ic in zip(fields, inner(c)):
+                                _, fv = self.expr(ic, ctx)
+                                st[f] = fv
+                            if any(x != self.NOVAL for x in st.values()):
+                                v = (frozenset(), st, None)
+                        self.bind(ctx, d.get("id"), v)
+                    else:
+                        e, v = self.expr(c, ctx)
+                        evs += e
+                        self.bind(ctx, d.get("id"), v)
+            return mk_seq(evs)
+        if k in ("ContinueStmt", "GotoStmt", "LabelStmt", "SwitchStmt", "CaseStmt", "DefaultStmt"):
+            raise SkelError("%s in %s is outside the skeleton subset" % (k, ctx["top"]))
+        ev, _ = self.expr(s, ctx)
+        return mk_seq(ev)
 
 
 def public_functions(cfile):
@@ -859,6 +1209,162 @@ def public_functions(cfile):
     names = re.findall(r"^(?:RTRLIB_EXPORT\s+)?(?:inline\s+)?(?:const\s+)?(?:int|void|bool|struct\s+\w+\s*\*?)\s*\**\s*(\w+)\s*\([^;{]*\)\s*\{", src, re.M)
     statics = set(re.findall(r"^static\s+[^;{(]*?(\w+)\s*\(", src, re.M))
     return [n for n in dict.fromkeys(names) if n not in statics]
+
+
+def path_count(p):
+    """(normal, break, return) path counts of a program with every loop taken 0 and 1 times (mirrors lk_paths)"""
+    k = p[0]
+    if k in ("ev", "skip"):
+        return (1, 0, 0)
+    if k == "ret":
+        return (0, 0, 1)
+    if k == "brk":
+        return (0, 1, 0)
+    if k == "seq":
+        an, ab, ar = path_count(p[1])
+        bn, bb, br = path_count(p[2])
+        return (an * bn, ab + an * bb, ar + an * br)
+    if k == "alt":
+        x, y = path_count(p[1]), path_count(p[2])
+        return (x[0] + y[0], x[1] + y[1], x[2] + y[2])
+    if k == "call":
+        return (sum(path_count(p[1])), 0, 0)
+    if k == "loop":
+        n, b, r = path_count(p[1])
+        return (b + n * b, 0, r + n * r)
+    raise SkelError("bad program node %r" % (k,))
+
+
+PATH_BUDGET = 2000        # a function with more paths is listed statement by statement (see emit_skeletons)
+SEGMENT_LIMIT = 20000
+
+
+def top_level_statements(p):
+    items = []
+    while p[0] == "seq":
+        items.append(p[1])
+        p = p[2]
+    items.append(p)
+    return items
+
+
+def coq_prog(p, ind=4):
+    k = p[0]
+    pad = " " * ind
+    if k == "ev":
+        if p[1] in ("AcqR", "AcqW", "Rel"):
+            return "%sPEv (%s %s)" % (pad, p[1], coq_string(p[2]))
+        if p[1] == "Cb":
+            return "%sPEv (Cb %s)" % (pad, coq_string(p[3]))
+        return "%sPEv (%s %s %s)" % (pad, p[1], coq_string(p[2]), coq_string(p[3]))
+    if k == "skip":
+        return pad + "PSkip"
+    if k == "ret":
+        return pad + "PRet"
+    if k == "brk":
+        return pad + "PBrk"
+    if k == "seq":
+        # right-nested sequences are printed flat
+        items = []
+        while p[0] == "seq":
+            items.append(p[1])
+            p = p[2]
+        items.append(p)
+        out = []
+        for i, it in enumerate(items[:-1]):
+            out.append("%sPSeq (\n%s) (" % (pad, coq_prog(it, ind + 2)) if it[0] not in ("ev", "skip", "ret", "brk")
+                       else "%sPSeq (%s) (" % (pad, coq_prog(it, 0)))
+        out.append(coq_prog(items[-1], ind) + ")" * (len(items) - 1))
+        return "\n".join(out)
+    if k == "alt":
+        return "%sPAlt (\n%s) (\n%s)" % (pad, coq_prog(p[1], ind + 2), coq_prog(p[2], ind + 2))
+    if k == "loop":
+        return "%sPLoop (\n%s)" % (pad, coq_prog(p[1], ind + 2))
+    if k == "call":
+        return "%sPCall (\n%s)" % (pad, coq_prog(p[1], ind + 2))
+    raise SkelError("bad program node %r" % (k,))
+
+
+SKELETON_PREAMBLE = """\
+(* ---- lock skeletons (see the comment above HELPER_RW in tools/c2v.py) ---- *)
+Inductive lk_event :=
+| AcqR (l : string) | AcqW (l : string) | Rel (l : string)
+| Rd (l : string) (what : string) | Wr (l : string) (what : string) | Cb (what : string).
+Inductive lk_prog :=
+| PEv (e : lk_event) | PSkip | PRet | PBrk
+| PSeq (a b : lk_prog) | PAlt (a b : lk_prog) | PLoop (body : lk_prog) | PCall (body : lk_prog).
+Inductive lk_out := ONorm | OBrk | ORet.
+(* every structured control-flow path, each loop taken 0 and 1 times *)
+Fixpoint lk_paths (p : lk_prog) : list (list lk_event * lk_out) :=
+  match p with
+  | PEv e => [([e], ONorm)]
+  | PSkip => [([], ONorm)]
+  | PRet => [([], ORet)]
+  | PBrk => [([], OBrk)]
+  | PSeq a b =>
+    let pb := lk_paths b in
+    flat_map (fun x => match snd x with
+                       | ONorm => map (fun y => (app (fst x) (fst y), snd y)) pb
+                       | o => [(fst x, o)]
+                       end) (lk_paths a)
+  | PAlt a b => app (lk_paths a) (lk_paths b)
+  | PCall b => map (fun x => (fst x, ONorm)) (lk_paths b)
+  | PLoop b =>
+    let pb := lk_paths b in
+    flat_map (fun x => match snd x with
+                       | OBrk => [(fst x, ONorm)]
+                       | ORet => [(fst x, ORet)]
+                       | ONorm => flat_map (fun y => match snd y with
+                                                     | OBrk => [(app (fst x) (fst y), ONorm)]
+                                                     | ORet => [(app (fst x) (fst y), ORet)]
+                                                     | ONorm => []
+                                                     end) pb
+                       end) pb
+  end.
+"""
+
+
+def emit_skeletons(w, problems):
+    w(SKELETON_PREAMBLE)
+    progs, lifecycle = [], []
+    for cfile in SKELETON_FILES:
+        sk = Skel(cfile)
+        try:
+            names = public_functions(cfile)
+        except Exception as e:  # noqa: BLE001
+            problems.append("skeleton %s: %s" % (cfile, e))
+            continue
+        for fname in names:
+            try:
+                p, _ = sk.function(fname)
+                progs.append((fname, p))
+            except Exception as e:  # noqa: BLE001
+                problems.append("skeleton %s: %s" % (fname, e))
+                progs.append((fname, ("ev", "Rel", "untranslatable", "")))
+        lifecycle += [n for n in names if n in sk.lifecycle]
+    w("(* one structured program per non-static function *)")
+    w("Definition lock_programs : list (string * lk_prog) :=\n  [%s].\n" % ";\n   ".join(
+        "(%s, (* %d paths *)\n%s)" % (coq_string(f), sum(path_count(p)), coq_prog(p)) for f, p in progs))
+    # Path listing.  A function with more than PATH_BUDGET paths is listed one top-level statement at a time
+    # (name "f@k"): every path of f is a concatenation of paths of its statements, and well_locked demands the
+    # empty lock state at both ends of every listed path, so this listing is only stricter (LockCheck.well_locked_app).
+    segs = []
+    for f, p in progs:
+        if sum(path_count(p)) <= PATH_BUDGET:
+            segs.append((f, "nth_prog %s" % coq_string(f)))
+            continue
+        for i, st in enumerate(top_level_statements(p)):
+            if sum(path_count(st)) > SEGMENT_LIMIT:
+                problems.append("skeleton %s: statement %d has more than %d paths" % (f, i, SEGMENT_LIMIT))
+            segs.append(("%s@%d" % (f, i), "(* statement %d of %s, %d paths *)\n%s" % (i, f, sum(path_count(st)), coq_prog(st))))
+    w("Definition nth_prog (f : string) : lk_prog :=\n"
+      "  match find (fun p => String.eqb (fst p) f) lock_programs with Some p => snd p | None => PEv (Rel \"missing\") end.\n")
+    w("Definition lock_segments : list (string * lk_prog) :=\n  [%s].\n" % ";\n   ".join(
+        "(%s, %s)" % (coq_string(n), t) for n, t in segs))
+    w("Definition lock_skeletons : list (string * list lk_event) :=\n"
+      "  flat_map (fun f => map (fun x => (fst f, fst x)) (lk_paths (snd f))) lock_segments.\n")
+    w("(* functions that create or destroy the lock itself (pthread_rwlock_init / _destroy): callers must own the table exclusively *)")
+    w("Definition lifecycle_functions : list string := [%s].\n" % "; ".join(coq_string(n) for n in lifecycle))
 
 
 # ---------------------------------------------------------------------------
@@ -948,36 +1454,50 @@ def generate():
             problems.append("function %s: %s" % (fname, e))
             w("(* %s could not be translated: %s *)" % (fname, str(e).replace("*)", "* )")))
             w("Definition %s_untranslated := tt.\n" % fname)
-    # lock skeletons
-    w("Inductive lk_event := AcqR (l : string) | AcqW (l : string) | Rel (l : string) | Rd (what : string) | Wr (what : string) | Cb (what : string).")
-    sk = []
-    for cfile in SKELETON_FILES:
-        try:
-            for fname in public_functions(cfile):
-                fn = find_def(cfile, fname)
-                if fn is None:
-                    continue
-                for i, path in enumerate(skeleton_paths(fn)):
-                    sk.append((fname, i, path))
-        except Exception as e:  # noqa: BLE001
-            problems.append("skeleton %s: %s" % (cfile, e))
-    w("Definition lock_skeletons : list (string * list lk_event) :=\n  [%s].\n" % ";\n   ".join(
-        "(%s, [%s])" % (coq_string("%s#%d" % (f, i)), "; ".join("%s %s" % (e, coq_string(a)) for e, a in p)) for f, i, p in sk))
     w("Definition translator_problems : list string := [%s]." % "; ".join(coq_string(p[:200]) for p in problems))
     return "\n".join(out) + "\n", problems
 
 
-def main():
-    text, problems = generate()
-    os.makedirs(os.path.dirname(OUT), exist_ok=True)
-    old = open(OUT).read() if os.path.exists(OUT) else None
+def generate_skeletons():
+    """text of Gen/LockSkeletons.v (self-contained: imports only the standard library)"""
+    out, problems = [], []
+    w = out.append
+    w("(* GENERATED by tools/c2v.py from the repository sources - do not edit. *)")
+    w("From Coq Require Import List String.")
+    w("Import ListNotations.")
+    w("Local Open Scope string_scope.\n")
+    emit_skeletons(w, problems)
+    w("Definition skeleton_problems : list string := [%s]." % "; ".join(coq_string(p[:200]) for p in problems))
+    return "\n".join(out) + "\n", problems
+
+
+def write_if_changed(path, text, label):
+    os.makedirs(os.path.dirname(path), exist_ok=True)
+    old = open(path).read() if os.path.exists(path) else None
     if old != text:
-        with open(OUT, "w") as f:
+        tmp = path + ".tmp%d" % os.getpid()
+        with open(tmp, "w") as f:
             f.write(text)
-        print("c2v: Generated.v rewritten")
+        os.replace(tmp, path)
+        print("c2v: %s rewritten" % label)
     else:
-        print("c2v: Generated.v unchanged")
-    for p in problems:
+        print("c2v: %s unchanged" % label)
+
+
+def main():
+    # VERIF_SKEL_OUT=<path>: write only the lock skeletons, to a scratch path (for testing the emitter)
+    skel_only = os.environ.get("VERIF_SKEL_OUT")
+    if skel_only:
+        stext, sproblems = generate_skeletons()
+        write_if_changed(skel_only, stext, skel_only)
+        for p in sproblems:
+            print("c2v: problem:", p)
+        return 0
+    text, problems = generate()
+    write_if_changed(OUT, text, "Generated.v")
+    stext, sproblems = generate_skeletons()
+    write_if_changed(SKEL_OUT, stext, "LockSkeletons.v")
+    for p in problems + sproblems:
         print("c2v: problem:", p)
     return 0
 
